@@ -170,7 +170,10 @@ func predict(m *model, op Op) prediction {
 				if sd := scriptDBRPs(script); len(sd) > 0 {
 					d = sd
 				}
-				if !varsFit(script, t.Vars) || startClass(script, d) == clsSyncFail {
+				// (a task moved from a script with a dbrp statement to one without is left
+				// without any dbrp and cannot start)
+				noDBRP := len(scriptDBRPs(script)) == 0 && len(scriptDBRPs(tm.Script)) > 0
+				if !varsFit(script, t.Vars) || startClass(script, d) == clsSyncFail || noDBRP {
 					return prediction{late: "template-update-rolled-back"}
 				}
 			}
@@ -186,6 +189,7 @@ var excludedCatalogue = map[string]bool{
 	"create-from-template-rejected":   true,
 	"template-changed-without-rename": true,
 	"association-moved-by-rejected-update": true,
+	"template-update-rolled-back":          true,
 }
 
 func pick[T any](t *rapid.T, label string, xs []T) T { return rapid.SampledFrom(xs).Draw(t, label) }
@@ -201,18 +205,49 @@ func rare(t *rapid.T, label string, pct int) bool {
 	return rapid.IntRange(0, 99).Draw(t, label) >= 100-pct
 }
 
-func drawTaskID(t *rapid.T, label string) string {
-	if rare(t, label+"-bad", 4) {
-		return badTaskID
+// drawID draws an id of a pool: with probability pct/100 one for which want(id) holds
+// (e.g. "exists in the shadow catalogue"), else any id of the pool incl. the invalid one.
+func drawID(t *rapid.T, label string, pool []string, bad string, pct int, want func(string) bool) string {
+	var good []string
+	for _, id := range pool {
+		if want(id) {
+			good = append(good, id)
+		}
 	}
-	return pick(t, label, taskIDs)
+	if len(good) > 0 && often(t, label+"-steer", pct) {
+		return pick(t, label, good)
+	}
+	if rare(t, label+"-bad", 6) {
+		return bad
+	}
+	return pick(t, label, pool)
 }
 
-func drawTmplID(t *rapid.T, label string) string {
-	if rare(t, label+"-bad", 4) {
-		return badTmplID
+func existingTask(sh *model) func(string) bool {
+	return func(id string) bool { _, ok := sh.tasks[id]; return ok }
+}
+func freeTask(sh *model) func(string) bool {
+	return func(id string) bool { _, ok := sh.tasks[id]; return !ok }
+}
+func existingTmpl(sh *model) func(string) bool {
+	return func(id string) bool { _, ok := sh.tmpls[id]; return ok }
+}
+func freeTmpl(sh *model) func(string) bool {
+	return func(id string) bool { _, ok := sh.tmpls[id]; return !ok }
+}
+
+// the shadow may hold ids outside the pools (renames to the invalid id are accepted)
+func taskPool(sh *model) []string {
+	if _, ok := sh.tasks[badTaskID]; ok {
+		return allTaskIDs
 	}
-	return pick(t, label, tmplIDs)
+	return taskIDs
+}
+func tmplPool(sh *model) []string {
+	if _, ok := sh.tmpls[badTmplID]; ok {
+		return allTmplIDs
+	}
+	return tmplIDs
 }
 
 func drawVars(t *rapid.T, templated bool) map[string]Var {
@@ -292,9 +327,9 @@ func drawStatus(t *rapid.T) string {
 }
 
 func drawCreate(t *rapid.T, r *kit.Rec, sh *model) Op {
-	op := Op{K: "create", ID: drawTaskID(t, "id"), Status: drawStatus(t)}
+	op := Op{K: "create", ID: drawID(t, "id", taskIDs, badTaskID, 85, freeTask(sh)), Status: drawStatus(t)}
 	if rare(t, "from-template", 40) {
-		op.Tmpl = drawTmplID(t, "tmpl")
+		op.Tmpl = drawID(t, "tmpl", tmplPool(sh), badTmplID, 90, existingTmpl(sh))
 		script := ""
 		if tm, ok := sh.tmpls[op.Tmpl]; ok {
 			script = tm.Script
@@ -310,14 +345,14 @@ func drawCreate(t *rapid.T, r *kit.Rec, sh *model) Op {
 }
 
 func drawUpdate(t *rapid.T, r *kit.Rec, sh *model) Op {
-	op := Op{K: "update", ID: drawTaskID(t, "id")}
+	op := Op{K: "update", ID: drawID(t, "id", taskPool(sh), badTaskID, 90, existingTask(sh))}
 	cur, exists := sh.tasks[op.ID]
 	templated := exists && cur.Tmpl != ""
 	if rare(t, "u-id", 25) {
-		op.NewID = drawTaskID(t, "newid")
+		op.NewID = drawID(t, "newid", taskIDs, badTaskID, 75, freeTask(sh))
 	}
 	if rare(t, "u-tmpl", 15) {
-		op.Tmpl = drawTmplID(t, "tmpl")
+		op.Tmpl = drawID(t, "tmpl", tmplPool(sh), badTmplID, 85, existingTmpl(sh))
 		templated = true
 	}
 	if rare(t, "u-script", 30) {
@@ -329,16 +364,16 @@ func drawUpdate(t *rapid.T, r *kit.Rec, sh *model) Op {
 	if rare(t, "u-vars", 25) {
 		op.Vars = drawVars(t, templated)
 	}
-	if rare(t, "u-status", 25) {
+	if rare(t, "u-status", 30) {
 		op.Status = pick(t, "status", []string{"enabled", "disabled"})
 	}
 	return op
 }
 
-func drawTUpdate(t *rapid.T) Op {
-	op := Op{K: "tupdate", ID: drawTmplID(t, "id")}
+func drawTUpdate(t *rapid.T, sh *model) Op {
+	op := Op{K: "tupdate", ID: drawID(t, "id", tmplPool(sh), badTmplID, 90, existingTmpl(sh))}
 	if rare(t, "tu-id", 20) {
-		op.NewID = drawTmplID(t, "newid")
+		op.NewID = drawID(t, "newid", tmplIDs, badTmplID, 75, freeTmpl(sh))
 	}
 	if op.NewID == "" || often(t, "tu-script", 70) {
 		op.Script = drawTmplScript(t)
@@ -353,17 +388,17 @@ func drawOp(t *rapid.T, r *kit.Rec, sh *model) Op {
 	case k < 11:
 		return drawUpdate(t, r, sh)
 	case k < 13:
-		return Op{K: "enable", ID: drawTaskID(t, "id")}
+		return Op{K: "enable", ID: drawID(t, "id", taskPool(sh), badTaskID, 90, existingTask(sh))}
 	case k < 15:
-		return Op{K: "disable", ID: drawTaskID(t, "id")}
+		return Op{K: "disable", ID: drawID(t, "id", taskPool(sh), badTaskID, 90, existingTask(sh))}
 	case k < 17:
-		return Op{K: "delete", ID: drawTaskID(t, "id")}
+		return Op{K: "delete", ID: drawID(t, "id", taskPool(sh), badTaskID, 85, existingTask(sh))}
 	case k < 19:
-		return Op{K: "tcreate", ID: drawTmplID(t, "id"), Script: drawTmplScript(t)}
+		return Op{K: "tcreate", ID: drawID(t, "id", tmplIDs, badTmplID, 85, freeTmpl(sh)), Script: drawTmplScript(t)}
 	case k < 24:
-		return drawTUpdate(t)
+		return drawTUpdate(t, sh)
 	case k < 25:
-		return Op{K: "tdelete", ID: drawTmplID(t, "id")}
+		return Op{K: "tdelete", ID: drawID(t, "id", tmplPool(sh), badTmplID, 85, existingTmpl(sh))}
 	}
 	return Op{K: "restart"}
 }
